@@ -128,4 +128,15 @@ def bsearch (cmp : Nat → Nat → Ordering) : Nat → Nat → Nat → Nat → O
       | .eq => some (true, mid)
     else some (false, mn)
 
+/-- the range-seeking loop of the CFF charset iterator (read-fonts tables/postscript/charset.rs `RangeIter::next`;
+text compared on every run): `while gid >= self.end { let (first, end) = next_range(&mut self.ranges)?; …;
+self.end = self.prev_end.checked_add(end)? }`, where `next_range` takes the NEXT element of a slice iterator
+(`(first, n_left + 1)`).  Arguments: the remaining ranges, `self.end`, the turns so far; result: (loop-body entries,
+left by `?`). -/
+def charsetSeek (gid : Nat) : List (Nat × Nat) → Nat → Nat → Nat × Bool
+  | [], e, t => if gid ≥ e then (t + 1, true) else (t, false)
+  | (_, len) :: rest, e, t =>
+    if gid ≥ e then (if e + len ≥ 4294967296 then (t + 1, true) else charsetSeek gid rest (e + len) (t + 1))
+    else (t, false)
+
 end FontVerif.LoopIter
